@@ -4,6 +4,7 @@ import (
 	"context"
 	"fmt"
 	"reflect"
+	"sort"
 
 	"github.com/arr-ai/arrai/pkg/fu"
 
@@ -195,20 +196,12 @@ func (u UnionSet) Less(v Value) bool {
 		return u.Kind() < v.Kind()
 	}
 	x := v.(UnionSet)
-	less := func(a, b interface{}) bool {
-		return a.(Set).Less(b.(Set))
-	}
-	a := u.m.Values().OrderedRange(less)
-	b := x.m.Values().OrderedRange(less)
-	for {
-		aHasMore, bHasMore := a.Next(), b.Next()
-		switch {
-		case !aHasMore:
-			return bHasMore
-		case !bHasMore:
+	a, b := u.orderedSubsets(), x.orderedSubsets()
+	for i, aSubset := range a {
+		if i >= len(b) {
 			return false
 		}
-		aSubset, bSubset := a.Value().(Set), b.Value().(Set)
+		bSubset := b[i]
 		if aSubset.Less(bSubset) {
 			return true
 		}
@@ -216,6 +209,19 @@ func (u UnionSet) Less(v Value) bool {
 			return false
 		}
 	}
+	return len(a) < len(b)
+}
+
+// orderedSubsets returns the buckets in ascending order. (The buckets cannot be
+// put in a frozen set to sort them: not every Set is comparable or hashable as
+// an interface value, e.g. Relation.)
+func (u UnionSet) orderedSubsets() []Set {
+	subsets := make([]Set, 0, u.m.Count())
+	for i := u.m.Range(); i.Next(); {
+		subsets = append(subsets, i.Value().(Set))
+	}
+	sort.Slice(subsets, func(i, j int) bool { return subsets[i].Less(subsets[j]) })
+	return subsets
 }
 
 func (u UnionSet) Negate() Value {
